@@ -2,6 +2,7 @@ SPECIFICATION TraceSpec
 CONSTANTS
   Relaxed = TRUE
   RelaxedOs = TRUE
+VIEW TraceView
 INVARIANT Inv
 POSTCONDITION TraceAccepted
 CHECK_DEADLOCK FALSE
